@@ -70,6 +70,19 @@ static void check_header(const rp_pattern_t * rp, const char * pattern, const ch
         if (!why) for (i = nnum; i < RP_MAXKW + 2; i++) if (nums[i] != (int32_t) SENT) { why = "suffix-slot-beyond-keywords-written"; break; }
         n_numbers += (unsigned long long) nnum;
     }
+    /* a caller may ask for fewer suffixes than the pattern has: exact-size arrays of every shorter length
+     * (ASan traps a store behind them), the slots that exist must still be right */
+    if (!why && acc && nnum > 0) {
+        int nl;
+        for (nl = 0; nl < nnum && !why; nl++) {
+            int32_t * shortarr = (int32_t *) malloc(sizeof (int32_t) * (size_t) nl);
+            for (i = 0; i < nl; i++) shortarr[i] = SENT;
+            if (!matchCommand(pattern, hb, (size_t) hl, shortarr, (size_t) nl, DEFV)) why = "valid-header-rejected/short-numbers-array";
+            else for (i = 0; i < nl; i++) if (shortarr[i] != (int32_t) rn[i]) { why = "suffix-value/short-numbers-array"; break; }
+            n_calls++;
+            free(shortarr);
+        }
+    }
     free(hb);
     if (why) {
         char sig[96];
